@@ -89,6 +89,7 @@ type Obl struct {
 	Model          string
 	Cover          bool // reachability cover query: expected SAT
 	NSplit         int
+	Enc            *Enc
 	Relaxed        string
 	RelaxedBackend string
 }
@@ -111,7 +112,13 @@ type Enc struct {
 	errs      []string
 	opaques   map[string]*opaqueInfo
 	splitVars []string // boolean constants that are branch conditions (candidates for case splits)
+	// view: a function may be proved in several views; each view assumes and proves only the untagged clauses and
+	// the clauses tagged with its name (keeps the VCs small). Safety obligations belong to the primary view "".
+	view string
 }
+
+func (e *Enc) inView(cl *Clause) bool { return cl.View == "" || cl.View == e.view }
+func (e *Enc) primary() bool          { return e.view == "" }
 
 func newEnc(p *Program, fn string) *Enc {
 	return &Enc{P: p, declared: map[string]bool{}, heapSort: map[string]string{}, heapType: map[string]types.Type{}, notes: map[string]bool{}, strLits: map[string]string{}, fnName: fn, oblNames: map[string]int{}, opaques: map[string]*opaqueInfo{}}
@@ -172,20 +179,35 @@ func (e *Enc) define(prefix, sort, term string) string {
 
 func (e *Enc) oblige(kind, name string, props []string, guard, cond string, pos token.Position, note string) *Obl {
 	full := name
+	if e.view != "" {
+		full += "@" + e.view
+	}
 	e.oblNames[full]++
 	if k := e.oblNames[full]; k > 1 {
 		full = fmt.Sprintf("%s#%d", full, k)
 	}
-	o := &Obl{Name: full, Kind: kind, Props: props, Fn: e.fnName, Guard: guard, Cond: cond, Prefix: len(e.items), NDecl: len(e.decls), Pos: pos, Note: note, NSplit: len(e.splitVars)}
+	o := &Obl{Name: full, Kind: kind, Props: props, Fn: e.fnName, Guard: guard, Cond: cond, Prefix: len(e.items), NDecl: len(e.decls), Pos: pos, Note: note, NSplit: len(e.splitVars), Enc: e}
 	e.obls = append(e.obls, o)
 	// after checking, the condition may be assumed
 	e.assume(guard, cond)
 	return o
 }
 
+// obligeNoAssume: like oblige, but the condition is not assumed afterwards (used for postconditions, which are
+// independent of each other).
+func (e *Enc) obligeNoAssume(kind, name string, props []string, guard, cond string, pos token.Position, note string) *Obl {
+	n := len(e.items)
+	o := e.oblige(kind, name, props, guard, cond, pos, note)
+	e.items = e.items[:n]
+	return o
+}
+
 // cover adds a reachability query (expected sat)
 func (e *Enc) cover(name string, props []string, guard string) {
-	o := &Obl{Name: name, Kind: "cover", Props: props, Fn: e.fnName, Guard: guard, Cond: "false", Prefix: len(e.items), NDecl: len(e.decls), Cover: true}
+	if e.view != "" {
+		name += "@" + e.view
+	}
+	o := &Obl{Name: name, Kind: "cover", Props: props, Fn: e.fnName, Guard: guard, Cond: "false", Prefix: len(e.items), NDecl: len(e.decls), Cover: true, Enc: e}
 	e.obls = append(e.obls, o)
 }
 
